@@ -43,6 +43,39 @@ func uniqueWord(subs []*flags.Command, w string) bool {
 	return matches == 1
 }
 
+// warmupPath: a path of command words for an earlier call of the same parser (no options, no other
+// words); what a later call does must not depend on it
+func warmupPath(c *Ctx, real *Real) []string {
+	r := c.Rng
+	var path []string
+	cur := real.p.Command
+	for {
+		subs := cur.Commands()
+		if len(subs) == 0 || len(cur.Args()) > 0 || r.Intn(5) == 0 {
+			break
+		}
+		s := subs[r.Intn(len(subs))]
+		if !uniqueWord(subs, s.Name) || !typableWord(s.Name) {
+			break
+		}
+		path = append(path, s.Name)
+		cur = s
+	}
+	return path
+}
+
+// withWarmup: the judged call alone, or (a third of the cases) after an earlier call on the same parser
+func withWarmup(c *Ctx, real *Real, argv []string) ([]Op, []string) {
+	if c.Rng.Intn(3) != 0 {
+		return []Op{{Kind: "parse", Args: argv}}, nil
+	}
+	w := warmupPath(c, real)
+	if len(w) == 0 {
+		return []Op{{Kind: "parse", Args: argv}}, nil
+	}
+	return []Op{{Kind: "parse", Args: w}, {Kind: "parse", Args: argv}}, w
+}
+
 func typableWord(w string) bool {
 	return w != "" && !strings.HasPrefix(w, "-") && !strings.Contains(w, "%")
 }
@@ -456,7 +489,8 @@ func checkC07Unknown(c *Ctx, n int) {
 			return out
 		}
 		cs := lc.cs
-		cs.Ops = []Op{{Kind: "parse", Args: argv}}
+		var warm []string
+		cs.Ops, warm = withWarmup(c, lc.real, argv)
 		cs.Description = describeOps(cs)
 		c.RunCases([]*Case{cs}, func(cr *CaseResult) {
 			c.classifyCase(cr)
@@ -469,6 +503,10 @@ func checkC07Unknown(c *Ctx, n int) {
 			}
 			c.Class(fmt.Sprintf("c07/unknown: policy=%s short=%v inline-argument=%v in-cluster=%v", policy, short, hasArg, !judgedName))
 			in := map[string]interface{}{"case": cs.Description, "argv": argv, "unknown_token": utext, "policy": policy}
+			if warm != nil {
+				in["earlier_call_on_the_same_parser"] = warm
+				c.Class("c07/unknown: after an earlier call on the same parser")
+			}
 			fail := func(got, want string) {
 				in["case_file"] = c.saveCase(cr)
 				c.Check("unknown-option-is-handled-by-the-policy", false, "C07:unknown-policy", in, got, want)
@@ -606,7 +644,8 @@ func checkC08Words(c *Ctx, n int) {
 		}
 		hasSubs := len(x.Commands()) > 0
 		cs := lc.cs
-		cs.Ops = []Op{{Kind: "parse", Args: argv}}
+		var warm []string
+		cs.Ops, warm = withWarmup(c, lc.real, argv)
 		cs.Description = describeOps(cs)
 		c.RunCases([]*Case{cs}, func(cr *CaseResult) {
 			c.classifyCase(cr)
@@ -620,6 +659,10 @@ func checkC08Words(c *Ctx, n int) {
 			c.Class(fmt.Sprintf("c08/words: depth=%d word=%v has-subcommands=%v optional=%v afternonoption=%v", len(lc.chain)-1, word != "", hasSubs, x.SubcommandsOptional, after))
 			in := map[string]interface{}{"case": cs.Description, "argv": argv, "command_path": lc.argv, "innermost": x.Name,
 				"innermost_has_subcommands": hasSubs, "innermost_subcommands_optional": x.SubcommandsOptional}
+			if warm != nil {
+				in["earlier_call_on_the_same_parser"] = warm
+				c.Class("c08/words: after an earlier call on the same parser")
+			}
 			fail := func(got, want string) {
 				in["case_file"] = c.saveCase(cr)
 				c.Check("command-words-select-the-chain-and-other-words-are-judged-by-the-active-command", false, "C08:words", in, got, want)
